@@ -55,6 +55,12 @@ def check(ctx):
         if np.abs(r4 - np.asarray(ex[0]["positions"], float)).max() > 1e-9:
             variants_.append(({**ex[0], "positions": r4, "name": ex[0]["name"] + "-4decimals"}, 10000, np.rint(r4 * 10000).astype(int)))
             ctx.count("few-decimals-variant")
+    # left-handed descriptions (basis vectors a and b exchanged: det(cell) < 0): every third structure
+    for ex in list(variants_)[::3]:
+        sc_l = {**ex[0], "lattice": np.asarray(ex[0]["lattice"], float)[[1, 0, 2]], "positions": np.asarray(ex[0]["positions"], float)[:, [1, 0, 2]], "name": ex[0]["name"] + "-lefthanded"}
+        if np.linalg.det(sc_l["lattice"]) < 0:
+            variants_.append((sc_l, ex[1], np.asarray(ex[2])[:, [1, 0, 2]]))
+            ctx.count("left-handed-variant")
     for sc0, D, P0 in variants_:
         rots, trans = symmetry_ops(sc0)
         descrs = [("ideal", sc0, np.arange(len(sc0["numbers"])))] + hostile_descriptions(sc0, rng)
